@@ -28,7 +28,7 @@ _TIER = "quick"
 META = dict(
     rule="one case = (model, method, path with values) for the objective identity; (handle recipe) for the Solution.__getitem__ identities",
     bounds={
-        "quick": "26 models x 8 methods (as C06), all data symbolic; 24 handle recipes over vectors n<=4 and matrices <=3x3 (slices with steps and negative indices, rows/cols/diag/T, symmetric)",
+        "quick": "26 models x 10 methods (as C06), all data symbolic; 24 handle recipes over vectors n<=4 and matrices <=3x3 (slices with steps and negative indices, rows/cols/diag/T, symmetric)",
         "thorough": "adds the n=3 models and path budget 20000",
     },
     outside=["rounding (S7)", "solver replies that violate S4/S5 (fun not equal to the passed callable at x)"],
@@ -60,7 +60,7 @@ def handle_recipes():
 def items(tier, seed):
     its = [("twin", 0), ("handles", handle_recipes())]
     for m in LM.solve_models(tier):
-        for meth in LM.METHODS:
+        for meth in LM.METHODS + LM.EXTRA_METHODS:
             its.append(("mm", (m, meth)))
     its.sort(key=lambda it: -(len(it[1][0]["cons"]) * 10 + (5 if it[1][1] in ("SLSQP", "auto") else 0)) if it[0] == "mm" else -1000)
     return its
